@@ -17,6 +17,7 @@
 From Coq Require Import String Ascii ZArith List Bool Lia.
 From SP Require Import Base.Sat Core.CnfModel Core.Card.
 From SP Require Import Text.Tok Text.TokProofs Text.Opb Text.OpbProofs Text.SolverIOProofs Text.TextTheorems.
+From SP Require Import Text.Chars Text.CharsProofs Text.TextChars Text.TextCharsProofs Text.TextCharsTheorems.
 Import ListNotations.
 Open Scope Z_scope.
 
@@ -75,6 +76,32 @@ Theorem C28_opb_block_excludes_exactly :
 Proof. exact ilp_block_excludes_exactly. Qed.
 Print Assumptions C28_opb_block_excludes_exactly.
 
+(** * Character level (Text/Chars.v, Text/TextChars.v; see the header of C27.v) *)
+
+(** The characters written by [as_opb_string] + [combine_and_save_opb] (a
+    fresh file; request lines start with a newline and end with ["; "], an
+    empty clause is written [" >= 1 ;"]), cut into lines and words, are the
+    token file of the token-level model; hence the text means what the
+    token-level file means. *)
+Theorem C28_opb_file_chars : forall s (cls : cnf) reqs,
+  (forall c, In c cls -> nonzero c) ->
+  lex_file (opb_file_text cls reqs) = opb_file cls reqs /\
+  pb_file_sat_text s (opb_file_text cls reqs) = Some (sat s cls && forallb (req_holds s) reqs).
+Proof. exact opb_file_chars. Qed.
+Print Assumptions C28_opb_file_chars.
+
+(** The characters appended by [sample_ilp.update_file] to ANY text [f]. *)
+Theorem C28_opb_block_chars : forall s f sol,
+  nonzero sol ->
+  lex_file (ilp_update_text f sol) = ilp_update (lex_file f) sol /\
+  pb_file_sat_text s (ilp_update_text f sol)
+  = match pb_file_sat_text s f with
+    | Some b => Some (b && negb (forallb (lit_true s) sol))
+    | None => None
+    end.
+Proof. exact ilp_update_chars. Qed.
+Print Assumptions C28_opb_block_chars.
+
 (** The hypotheses are satisfiable by non-trivial objects. *)
 Example C28_instance :
   let cls := [[1; -2]; [3]] in
@@ -93,3 +120,14 @@ Proof.
   cbv zeta. split; [|repeat split; vm_compute; reflexivity].
   intros c [<-|[<-|[]]] l Hl; cbn in Hl; intuition lia.
 Qed.
+
+Example C28_instance_chars :
+  let cls := [[1; -2]; [3]] in
+  let reqs := [(GT, 1, [1; 2; 3]); (LT, 3, [1; 2; 3])] in
+  opb_file_text cls reqs
+  = ("+1 v3 >= 1 ;" +s+ nl_s +s+ "+1 v1 -1 v2 >= 0 ;" +s+ nl_s
+     +s+ "+1 v1 +1 v2 +1 v3 >= 2 ; " +s+ nl_s +s+ "+1 v1 +1 v2 +1 v3 <= 2 ; ")%string /\
+  ilp_update_text (opb_file_text [[1]] []) [1; -2]
+  = ("+1 v1 >= 1 ;" +s+ nl_s +s+ "+1 v1 -1 v2 <= 0 ;" +s+ nl_s)%string /\
+  pb_file_sat_text (fun v => negb (v =? 2)) (opb_file_text cls reqs) = Some true.
+Proof. cbv zeta. repeat split; vm_compute; reflexivity. Qed.
